@@ -30,6 +30,19 @@ def cases(tier, seed):
         for second in ("complete", "cancel_same", "fail"):
             out.append({"name": "poll.sweep-raise/worker/%s|%s" % (trig, second), "kind": "sweep", "victim": "worker", "trigger": trig,
                         "second": second, "cap": 30 if tier == "quick" else None, "raise_at": [1, 2, 3]})
+    # several futures in the polling stage at once; the poll function raises (or yields for the first) while a
+    # client cancels one of the futures it was shown
+    for trig in ("notify", "timer", "complete"):
+        for second in ("cancel0", "cancel1", "cancel2"):
+            out.append({"name": "poll.multi-raise/worker/%s|%s" % (trig, second), "kind": "sweep", "victim": "worker", "trigger": trig,
+                        "second": second, "cap": None, "raise_at": [1, 2, 3], "multi": True})
+    # suspension points at instruction boundaries: a client's cancel() scanning the registrations | the poll thread
+    for vict, second in (("cancel2", "notify"), ("cancel1", "notify"), ("cancel2", "timer"), ("cancel0", "notify"), ("cancel2", "complete")):
+        out.append({"name": "poll.multi-instr/client/%s|%s" % (vict, second), "kind": "sweep", "victim": "client", "trigger": vict,
+                    "second": second, "cap": None, "multi": True, "gran": "instr"})
+    for trig, second in (("notify", "cancel2"), ("notify", "cancel1"), ("timer", "cancel2"), ("complete", "cancel2")):
+        out.append({"name": "poll.multi-instr/worker/%s|%s" % (trig, second), "kind": "sweep", "victim": "worker", "trigger": trig,
+                    "second": second, "cap": 60 if tier == "quick" else None, "multi": True, "gran": "instr"})
     cap = 22 if tier == "quick" else None
     for victim, trig in (("worker", "complete"), ("worker", "notify"), ("worker", "timer"), ("client", "complete"),
                          ("client", "cancel"), ("client", "notify")):
@@ -411,12 +424,25 @@ class PScenario(object):
     def setup(self):
         ctx = Ctx()
         scripts = [[None, "v"], ["v"], [None, None, "e"], ["v"]]
-        w = PW(ctx, 5.0, scripts, {0: True, 1: False, 2: True, 3: True}, set(self.case.get("raise_at") or ()))
+        multi = self.case.get("multi")
+        if multi:
+            # futures 0..2 are in the polling stage and have been shown once; 0 yields at its second sighting
+            scripts = [[None, "v"], [None, None, None, "v"], [None, None, None, None, "v"], ["v"]]
+            w = PW(ctx, 5.0, scripts, {0: True, 1: True, 2: False, 3: True})
+        else:
+            w = PW(ctx, 5.0, scripts, {0: True, 1: False, 2: True, 3: True}, set(self.case.get("raise_at") or ()))
         ctx.w = w
         for _ in range(4):
             w.submit()
         w.complete(0)
+        if multi:
+            w.complete(1)
+            w.complete(2)
         instr.advance(0.25)
+        if multi and self.case.get("raise_at"):
+            # the next poll calls (the ones the trigger causes) raise
+            n = len(w.poll_fn.calls)
+            w.poll_raise_at = set([n, n + 1])
         return ctx
 
     def victim_role(self, ctx):
@@ -437,6 +463,8 @@ class PScenario(object):
                 if rec["delegate"] is None:
                     w.complete(rec["i"], "fail")
                     break
+        elif what in ("cancel0", "cancel1", "cancel2"):
+            w.cancel(int(what[-1]))
         elif what == "cancel":
             w.cancel(0)
         elif what == "cancel_same":
@@ -517,4 +545,4 @@ def run_case(case, res):
         run_gen(case, res)
     else:
         rng = random.Random("c08/%s/%s" % (case["seed"], case["name"]))
-        Sweep(PScenario(case), res, "vt", case["name"]).run(case["cap"], rng, per_site=2)
+        Sweep(PScenario(case), res, "vt", case["name"], gran=case.get("gran", "line")).run(case["cap"], rng, per_site=2)
